@@ -46,7 +46,12 @@ use serde_json::{json, Value};
 use std::panic::{catch_unwind, AssertUnwindSafe};
 use std::sync::{Arc, Mutex};
 use std::time::Duration;
+use vls_protocol::model::{self, PubKey, Utxo};
+use vls_protocol::msgs::{self, Message, SerBolt};
+use vls_protocol::psbt::StreamedPSBT;
+use vls_protocol::serde_bolt::{Array, Octets, WithSize};
 use vls_protocol_signer::approver::Approve;
+use vls_protocol_signer::handler::{Handler, InitHandler, RootHandler};
 
 const U64MAX: u64 = u64::MAX;
 const U32MAX: u32 = u32::MAX;
@@ -1574,6 +1579,513 @@ fn val_domain(args: &Args) {
     );
 }
 
+// ------------------------------------------------------------------ handler domain
+
+/// what the request says about one input
+#[derive(Clone, Copy, PartialEq, Debug)]
+enum Form {
+    Both,          // non_witness_utxo and a matching witness_utxo
+    PrevOnly,      // non_witness_utxo only
+    ClaimOnly,     // witness_utxo only, true
+    ClaimLow,      // witness_utxo only, value understated
+    ClaimHigh,     // witness_utxo only, value overstated
+    BothLow,       // previous transaction and an understated witness_utxo
+    BothHigh,      // previous transaction and an overstated witness_utxo
+    BothScript,    // previous transaction and a witness_utxo with another script
+    Neither,
+}
+
+fn make_root(node: &Arc<Node>, approver: Arc<dyn Approve>) -> RootHandler {
+    let proto = 6;
+    let mut init = InitHandler::new(0, node.clone(), approver, proto);
+    let m = msgs::HsmdInit {
+        key_version: model::Bip32KeyVersion { pubkey_version: 0, privkey_version: 0 },
+        chain_params: bitcoin::BlockHash::all_zeros(),
+        encryption_key: None,
+        dev_privkey: None,
+        dev_bip32_seed: None,
+        dev_channel_secrets: None,
+        dev_channel_secrets_shaseed: None,
+        hsm_wire_min_version: 2,
+        hsm_wire_max_version: proto,
+    };
+    init.handle(Message::HsmdInit(m)).expect("init");
+    init.into()
+}
+
+/// SignWithdrawal requests through the wire codec and RootHandler::handle.  The TRUE value and script of
+/// every input are those of the previous transaction built here; the request may say otherwise.
+fn handler_domain(args: &Args) {
+    use bitcoin::psbt::Psbt;
+    use bitcoin::script::PushBytesBuf;
+    let mut rng = Rng::new(mix_seed(args.seed ^ 0xc08b));
+    let secp = Secp256k1::new();
+    let mut codes: std::collections::BTreeMap<String, u64> = Default::default();
+    let mut forms: std::collections::BTreeMap<String, u64> = Default::default();
+    let mut kinds_signed: std::collections::BTreeMap<String, u64> = Default::default();
+    let (mut signed_usable, mut signed_unusable, mut monitor_failures, mut decode_disagreements) = (0u64, 0u64, 0u64, 0u64);
+    for case in 0..args.n {
+        let mut pol = gen_policy(&mut rng, true);
+        if rng.chance(9, 10) {
+            pol.rules = vec![];
+            pol.disable_beneficial = false;
+        }
+        let mut seed = [0u8; 32];
+        seed[0] = (case % 251) as u8;
+        seed[1] = 0xc9;
+        let world = World::new(real_policy(&pol), seed, KeyDerivationStyle::Native);
+        let node = world.new_node();
+        let node_ctx = TestNodeContext { node: node.clone(), secp_ctx: Secp256k1::signing_only() };
+        let mut refw = RefWallet { secp: secp.clone(), account: node.get_account_extended_key().clone(), allow_scripts: vec![], xpubs: vec![] };
+        let answer = rng.chance(3, 5);
+        let approver = Arc::new(RecordingApprover { answer, asked: Mutex::new(vec![]) });
+        let root = make_root(&node, approver.clone());
+
+        // ---- inputs: wallet outputs of previous transactions made here
+        let n_in = 1 + rng.below(3) as usize;
+        let liar = if rng.chance(2, 5) { Some(rng.below(n_in as u64) as usize) } else { None };
+        let mut kinds: Vec<(&'static str, u64, u32)> = vec![]; // (name, script kind, key index)
+        let mut in_forms: Vec<Form> = vec![];
+        for k in 0..n_in {
+            let (name, code) = *rng.pick(&[("p2wpkh", 0u64), ("p2wpkh", 0), ("p2sh-p2wpkh", 1), ("p2tr", 2), ("p2pkh", 3), ("p2pkh", 3)]);
+            kinds.push((name, code, rng.below(40) as u32));
+            let f = if liar == Some(k) {
+                *rng.pick(&[Form::ClaimLow, Form::ClaimLow, Form::ClaimHigh, Form::BothLow, Form::BothLow, Form::BothHigh, Form::BothScript, Form::Neither])
+            } else {
+                *rng.pick(&[Form::Both, Form::Both, Form::Both, Form::PrevOnly, Form::PrevOnly, Form::ClaimOnly])
+            };
+            in_forms.push(f);
+        }
+
+        // ---- an optional channel (stub first, its funding script is needed for the output)
+        let mut chan: Option<(TestChannelContext, ScriptBuf, u64)> = None; // (ctx, funding script, holder mode)
+        if rng.chance(3, 10) {
+            let value = 100_000 + rng.below(20_000_000);
+            let push = *rng.pick(&[0u64, 0, 0, 0, 999, 1000]);
+            let ctx = test_chan_ctx_with_push_val(&node_ctx, case * 8 + 1, value, push);
+            let funding = make_test_funding_channel_outpoint(&node, &ctx.setup, &ctx.channel_id, 0).script_pubkey;
+            chan = Some((ctx, funding, *rng.pick(&[0u64, 0, 0, 2, 1])));
+        }
+
+        // ---- outputs
+        struct HOut {
+            class: &'static str,
+            value: u64,
+            script: ScriptBuf,
+            opath: DerivationPath,
+            key: Option<PublicKey>,
+            is_chan: bool,
+        }
+        let mut houts: Vec<HOut> = vec![];
+        if let Some((ctx, funding, _)) = &chan {
+            houts.push(HOut { class: "channel", value: ctx.setup.channel_value_sat, script: funding.clone(), opath: path_of(&[]), key: None, is_chan: true });
+        }
+        for _ in 0..rng.below(3) + if chan.is_some() { 0 } else { 1 } {
+            let value = 1000 + rng.below(50_000_000);
+            let i = rng.below(50) as u32;
+            let kind = rng.below(3);
+            match rng.below(10) {
+                0..=5 => {
+                    let p = path_of(&[i]);
+                    let pk = refw.wallet_key(&p);
+                    houts.push(HOut { class: "wallet", value, script: refw.script_of(&pk, kind), opath: p, key: Some(pk.0), is_chan: false });
+                }
+                6..=8 => {
+                    let s = refw.script_of(&refw.wallet_key(&path_of(&[10_000 + i])), kind);
+                    refw.allow_scripts.push(s.clone());
+                    houts.push(HOut { class: "allowlisted-script", value, script: s, opath: path_of(&[]), key: None, is_chan: false });
+                }
+                _ => {
+                    let s = refw.script_of(&refw.wallet_key(&path_of(&[10_000 + i])), kind);
+                    houts.push(HOut { class: "unknown", value, script: s, opath: path_of(&[]), key: None, is_chan: false });
+                }
+            }
+        }
+        for i in (1..houts.len()).rev() {
+            let j = rng.below(i as u64 + 1) as usize;
+            houts.swap(i, j);
+        }
+        let adds: Vec<String> = refw.allow_scripts.iter().map(|s| Address::from_script(s, NETWORK).expect("address").to_string()).collect();
+        node.add_allowlist(&adds).expect("add_allowlist");
+
+        // ---- values: what the outputs take, the fee the request shows, and what the lie hides
+        let sum_out_counted: u128 = houts.iter().filter(|o| o.class != "unknown").map(|o| o.value as u128).sum();
+        let sum_out_all: u128 = houts.iter().map(|o| o.value as u128).sum();
+        let _ = sum_out_all;
+        // weight: outputs and inputs are fixed now (values do not change sizes)
+        let skeleton = Transaction {
+            version: Version::TWO,
+            lock_time: LockTime::ZERO,
+            input: (0..n_in)
+                .map(|_| TxIn { previous_output: OutPoint { txid: Txid::all_zeros(), vout: 0 }, script_sig: ScriptBuf::new(), sequence: Sequence::ZERO, witness: Witness::default() })
+                .collect(),
+            output: houts.iter().map(|o| TxOut { value: Amount::from_sat(o.value), script_pubkey: o.script.clone() }).collect(),
+        };
+        let w = skeleton.weight().to_wu() as u128 + n_in as u128 * (77 + 33);
+        let fb = fee_bound(pol.max_feerate, w);
+        let shown_fee: u128 = match rng.below(8) {
+            0 => fb,
+            1 => fb + 1,
+            2 => 0,
+            3 => fb.saturating_sub(1),
+            _ => rng.below((fb.min(60_000) + 1) as u64) as u128,
+        };
+        let hidden: u128 = *rng.pick(&[1u128, 1000, 100_000_000, 250_000]);
+        let lie = liar.map(|k| in_forms[k]);
+        let understate = matches!(lie, Some(Form::ClaimLow) | Some(Form::BothLow));
+        let overstate = matches!(lie, Some(Form::ClaimHigh) | Some(Form::BothHigh));
+        let shown_total = sum_out_counted + shown_fee;
+        let true_total = if understate { shown_total + hidden } else if overstate { shown_total.saturating_sub(hidden).max(n_in as u128) } else { shown_total.max(n_in as u128) };
+        // split the true total; the liar holds the largest share
+        let mut true_vals = vec![0u64; n_in];
+        let mut rest = true_total;
+        for k in 0..n_in - 1 {
+            let part = (rng.below(400) as u128 * rest / 2000).min(U64MAX as u128);
+            true_vals[k] = part as u64;
+            rest -= part;
+        }
+        true_vals[n_in - 1] = rest.min(U64MAX as u128) as u64;
+        if let Some(k) = liar {
+            let (imax, _) = true_vals.iter().enumerate().max_by_key(|(_, v)| **v).unwrap();
+            true_vals.swap(k, imax);
+        }
+
+        // ---- previous transactions and the PSBT
+        let mut prevs: Vec<(Transaction, u32)> = vec![];
+        let mut true_outs: Vec<TxOut> = vec![];
+        for k in 0..n_in {
+            let (_, code, idx) = kinds[k];
+            let pk = refw.wallet_key(&path_of(&[idx]));
+            let script = refw.script_of(&pk, code);
+            let vout = rng.below(3) as u32;
+            let mut outputs = vec![];
+            for v in 0..=vout {
+                if v == vout {
+                    outputs.push(TxOut { value: Amount::from_sat(true_vals[k]), script_pubkey: script.clone() });
+                } else {
+                    outputs.push(TxOut { value: Amount::from_sat(1000 + v as u64), script_pubkey: big_script(8) });
+                }
+            }
+            let mut h = rng.bytes32();
+            h[31] = k as u8;
+            let prev = Transaction {
+                version: Version::TWO,
+                lock_time: LockTime::ZERO,
+                input: vec![TxIn { previous_output: OutPoint { txid: Txid::from_slice(&h).unwrap(), vout: 0 }, script_sig: ScriptBuf::new(), sequence: Sequence::MAX, witness: Witness::default() }],
+                output: outputs,
+            };
+            true_outs.push(prev.output[vout as usize].clone());
+            prevs.push((prev, vout));
+        }
+        let tx = Transaction {
+            version: Version::TWO,
+            lock_time: LockTime::ZERO,
+            input: prevs
+                .iter()
+                .map(|(p, vout)| TxIn { previous_output: OutPoint { txid: p.compute_txid(), vout: *vout }, script_sig: ScriptBuf::new(), sequence: Sequence::ZERO, witness: Witness::default() })
+                .collect(),
+            output: skeleton.output.clone(),
+        };
+        let txid = tx.compute_txid();
+        let mut psbt = Psbt::from_unsigned_tx(tx.clone()).expect("psbt");
+        let mut claimed: Vec<Option<TxOut>> = vec![];
+        for k in 0..n_in {
+            let t = &true_outs[k];
+            let d = (hidden.min(u64::MAX as u128)) as u64;
+            let low = TxOut { value: Amount::from_sat(t.value.to_sat().saturating_sub(d)), script_pubkey: t.script_pubkey.clone() };
+            let high = TxOut { value: Amount::from_sat(t.value.to_sat().saturating_add(d)), script_pubkey: t.script_pubkey.clone() };
+            let other = TxOut { value: t.value, script_pubkey: refw.script_of(&refw.wallet_key(&path_of(&[kinds[k].2 + 1])), kinds[k].1) };
+            let (nwu, wu) = match in_forms[k] {
+                Form::Both => (true, Some(t.clone())),
+                Form::PrevOnly => (true, None),
+                Form::ClaimOnly => (false, Some(t.clone())),
+                Form::ClaimLow => (false, Some(low)),
+                Form::ClaimHigh => (false, Some(high)),
+                Form::BothLow => (true, Some(low)),
+                Form::BothHigh => (true, Some(high)),
+                Form::BothScript => (true, Some(other)),
+                Form::Neither => (false, None),
+            };
+            if nwu {
+                psbt.inputs[k].non_witness_utxo = Some(prevs[k].0.clone());
+            }
+            psbt.inputs[k].witness_utxo = wu.clone();
+            if kinds[k].1 == 1 {
+                let pk = refw.wallet_key(&path_of(&[kinds[k].2]));
+                psbt.inputs[k].redeem_script = Some(refw.script_of(&pk, 0));
+            }
+            claimed.push(wu);
+            *forms.entry(format!("{:?}", in_forms[k])).or_insert(0) += 1;
+        }
+        for (j, o) in houts.iter().enumerate() {
+            if let Some(key) = o.key {
+                psbt.outputs[j].bip32_derivation.insert(key, (bitcoin::bip32::Fingerprint::default(), o.opath.clone()));
+            }
+        }
+        let utxos: Vec<Utxo> = (0..n_in)
+            .map(|k| Utxo {
+                txid: tx.input[k].previous_output.txid,
+                outnum: tx.input[k].previous_output.vout,
+                amount: claimed[k].as_ref().map(|c| c.value.to_sat()).unwrap_or(true_vals[k]),
+                keyindex: kinds[k].2,
+                is_p2sh: kinds[k].1 == 1,
+                script: Octets(true_outs[k].script_pubkey.to_bytes()),
+                close_info: None,
+                is_in_coinbase: false,
+            })
+            .collect();
+
+        // ---- the channel becomes ready with this transaction's outpoint
+        let mut chan_facts: Option<(usize, ChanFacts)> = None;
+        if let Some((ctx, funding, holder)) = chan.as_mut() {
+            let vout = houts.iter().position(|o| o.is_chan).unwrap();
+            ctx.setup.funding_outpoint = OutPoint { txid, vout: vout as u32 };
+            let r = catch_unwind(AssertUnwindSafe(|| funding_tx_setup_channel(&node_ctx, ctx, &tx, vout as u32)));
+            if matches!(r, Ok(None)) {
+                if *holder == 0 {
+                    let _ = catch_unwind(AssertUnwindSafe(|| {
+                        let mut cctx = channel_initial_holder_commitment(&node_ctx, ctx);
+                        let (csig, hsigs) = counterparty_sign_holder_commitment(&node_ctx, ctx, &mut cctx);
+                        validate_holder_commitment(&node_ctx, ctx, &cctx, &csig, &hsigs)
+                    }));
+                    node.with_channel(&ctx.channel_id, |c| {
+                        if c.enforcement_state.next_holder_commit_num != 1 {
+                            c.enforcement_state.set_next_holder_commit_num_for_testing(1);
+                        }
+                        Ok(())
+                    })
+                    .expect("channel");
+                } else {
+                    let n = *holder - 1;
+                    node.with_channel(&ctx.channel_id, |c| {
+                        c.enforcement_state.set_next_holder_commit_num_for_testing(n);
+                        Ok(())
+                    })
+                    .expect("channel");
+                }
+                let next_holder = node.with_channel(&ctx.channel_id, |c| Ok(c.enforcement_state.next_holder_commit_num)).expect("channel");
+                chan_facts = Some((
+                    vout,
+                    ChanFacts { value: ctx.setup.channel_value_sat, script_ok: houts[vout].script == *funding, next_holder, outbound: ctx.setup.is_outbound, push_msat: ctx.setup.push_value_msat },
+                ));
+            }
+        }
+        let outs: Vec<OutSpec> = houts
+            .iter()
+            .enumerate()
+            .map(|(j, o)| OutSpec {
+                class: o.class,
+                value: o.value,
+                script: o.script.clone(),
+                opath: Some(o.opath.clone()),
+                can_spend: refw.can_spend(&o.opath, &o.script),
+                allow_path: refw.allow(&o.script, &o.opath),
+                allow_script: refw.allow(&o.script, &path_of(&[])) == Some(true),
+                chan: chan_facts.as_ref().filter(|(v, _)| *v == j).map(|(_, c)| c.clone()),
+            })
+            .collect();
+
+        // ---- the request, through the codec like the daemon
+        let now = 1000 + rng.below(1_000_000);
+        world.clock.set(Duration::from_secs(now));
+        let c0 = fee_control(&node);
+        let request = msgs::SignWithdrawal { utxos: Array(utxos), psbt: WithSize(StreamedPSBT::new(psbt.clone())) };
+        let bytes = request.as_vec();
+        let decoded = catch_unwind(AssertUnwindSafe(|| msgs::from_vec(bytes.clone())));
+        // reference reading of the decoder: a previous transaction must agree with what the request claims
+        let disagrees = (0..n_in).any(|k| matches!(in_forms[k], Form::BothLow | Form::BothHigh | Form::BothScript) && claimed[k].as_ref() != Some(&true_outs[k]));
+        // ... and without a previous transaction the claim must be one that a signature commits to: a legacy
+        // sighash does not cover the amount, so a bare claim about a legacy output cannot be taken
+        let unverifiable = (0..n_in).any(|k| {
+            matches!(in_forms[k], Form::ClaimOnly | Form::ClaimLow | Form::ClaimHigh)
+                && claimed[k].as_ref().map(|c| !c.script_pubkey.is_witness_program() && !c.script_pubkey.is_p2sh()).unwrap_or(false)
+        });
+        let inconsistent = disagrees || unverifiable;
+        let mut monitor: Vec<String> = vec![];
+        let mut decode_disagrees = false;
+        let (code, reply): (u64, Option<Psbt>) = match decoded {
+            Err(_) => (5, None),
+            Ok(Err(_)) => (4, None),
+            Ok(Ok(msg)) => {
+                if inconsistent {
+                    decode_disagrees = true;
+                }
+                match catch_unwind(AssertUnwindSafe(|| root.handle(msg))) {
+                    Err(_) => (3, None),
+                    Ok(Err(_)) => (2, None),
+                    Ok(Ok(reply)) => {
+                        let back = msgs::from_vec(reply.as_vec()).expect("reply decodes");
+                        match back {
+                            Message::SignWithdrawalReply(r) => (0, Some(r.psbt.0.inner)),
+                            _ => (0, None),
+                        }
+                    }
+                }
+            }
+        };
+        if !inconsistent && (code == 4 || code == 5) {
+            decode_disagrees = true;
+        }
+        if decode_disagrees {
+            decode_disagreements += 1;
+        }
+        let poisoned = code == 3;
+        let c1 = if poisoned { c0.clone() } else { fee_control(&node) };
+        let asked = approver.asked.lock().unwrap().clone();
+
+        // ---- is what came back usable on chain against the TRUE previous outputs?
+        let mut usable = false;
+        if let Some(p) = &reply {
+            let mut ftx = p.unsigned_tx.clone();
+            let mut complete = true;
+            for k in 0..n_in {
+                let wit = p.inputs[k].final_script_witness.clone();
+                match wit {
+                    None => complete = false,
+                    Some(wit) =>
+                        if kinds[k].1 == 3 {
+                            let items: Vec<Vec<u8>> = wit.iter().map(|x| x.to_vec()).collect();
+                            let mut b = bitcoin::script::Builder::new();
+                            for it in items {
+                                b = b.push_slice(PushBytesBuf::try_from(it).expect("push"));
+                            }
+                            ftx.input[k].script_sig = b.into_script();
+                        } else {
+                            ftx.input[k].witness = wit;
+                            if let Some(ss) = &p.inputs[k].final_script_sig {
+                                ftx.input[k].script_sig = ss.clone();
+                            }
+                        },
+                }
+            }
+            let spent = |op: &OutPoint| (0..n_in).find(|k| tx.input[*k].previous_output == *op).map(|k| true_outs[k].clone());
+            usable = complete && ftx.verify(spent).is_ok();
+            // the consensus library at hand does not evaluate taproot spends; a taproot signature commits to the
+            // value and script of every previous output, so it is good only if the handler worked with the true ones
+            if kinds.iter().any(|k| k.1 == 2) {
+                let worked_with_true = (0..n_in).all(|k| match in_forms[k] {
+                    Form::Both | Form::PrevOnly => true,
+                    _ => claimed[k].as_ref() == Some(&true_outs[k]),
+                });
+                usable = usable && worked_with_true;
+            }
+            if usable {
+                signed_usable += 1;
+                for k in 0..n_in {
+                    *kinds_signed.entry(kinds[k].0.to_string()).or_insert(0) += 1;
+                }
+            } else {
+                signed_unusable += 1;
+            }
+        }
+
+        // ---- the property on the final verdict, with the true input values
+        let flags_true: Vec<bool> = true_outs.iter().map(|t| t.script_pubkey.is_witness_program()).collect();
+        let unknown_ref: Vec<u64> = outs.iter().enumerate().filter(|(_, o)| is_unknown(o)).map(|(i, _)| i as u64).collect();
+        if usable {
+            let by_approval = !asked.is_empty();
+            for m in reference_violations(&pol, &outs, &true_vals, &flags_true, n_in, w, true, tx.base_size() as u128, None, by_approval) {
+                monitor.push(format!("SignWithdrawal returned signatures that are valid for the true previous outputs although {}", m));
+            }
+            if by_approval {
+                let ix: Vec<u64> = asked[0].iter().map(|i| *i as u64).collect();
+                if ix != unknown_ref || !answer {
+                    monitor.push(format!("signed after asking about {:?} (answer {}), the unclassified outputs are {:?}", ix, answer, unknown_ref));
+                }
+            } else {
+                let sc: u128 = outs.iter().map(counted).sum();
+                let sin: u128 = true_vals.iter().map(|v| *v as u128).sum();
+                if !unknown_ref.is_empty() {
+                    monitor.push(format!("signed without asking although outputs {:?} are unclassified", unknown_ref));
+                }
+                if sc <= sin && !ref_warned(&pol.rules, TAGS[9]) {
+                    let msat = ((sin - sc) * 1000).min(U64MAX as u128);
+                    let booked = c1.buckets.first().map(|x| *x as u128).unwrap_or(0);
+                    if msat > 0 && booked < msat {
+                        monitor.push(format!("signed away {} msat (true inputs - beneficial outputs) but the fee velocity control booked {}", msat, booked));
+                    }
+                }
+            }
+            if disagrees {
+                monitor.push("signed although a witness_utxo disagrees with the previous transaction of the request".into());
+            }
+            if unverifiable {
+                monitor.push("signed a legacy input on the strength of a bare witness_utxo (no previous transaction in the request)".into());
+            }
+        }
+        if !monitor.is_empty() {
+            monitor_failures += 1;
+        }
+        *codes.entry(code.to_string()).or_insert(0) += 1;
+
+        // ---- the view the handler derives, for the model
+        let mut coq: Vec<String> = vec![];
+        let modelled = !inconsistent && !in_forms.contains(&Form::Neither) && code != 4 && code != 5;
+        if modelled {
+            let eff: Vec<(u64, bool)> = (0..n_in)
+                .map(|k| {
+                    let has_prev = matches!(in_forms[k], Form::Both | Form::PrevOnly);
+                    let v = if has_prev { true_vals[k] } else { claimed[k].as_ref().unwrap().value.to_sat() };
+                    (v, has_prev && flags_true[k])
+                })
+                .collect();
+            let prevs_coq: Vec<String> = eff.iter().map(|(v, _)| format!("mkIn {} true", v)).collect();
+            let nc = format!(
+                "(mkNode true {} {} {} {} {} {} {})",
+                tx.base_size(),
+                tx.weight().to_wu(),
+                n_in,
+                coq_flags(&eff.iter().map(|(_, f)| *f).collect::<Vec<_>>()),
+                coq_list(&prevs_coq),
+                coq_list(&vec!["None"; n_in]),
+                coq_list(&outs.iter().map(coq_out).collect::<Vec<_>>())
+            );
+            let asked_coq = match asked.first() {
+                Some(ix) => format!("(Some {})", coq_nlist(&ix.iter().map(|i| *i as u64).collect::<Vec<_>>())),
+                None => "None".to_string(),
+            };
+            let ocode = match code {
+                0 => 0,
+                3 => 3,
+                _ => 2,
+            };
+            coq.push(format!(
+                "(({}, {}), ({}, {}, {}, {}), ({}, {}, {}))",
+                coq_rules(&pol.rules),
+                coq_pol(&pol),
+                vc_obs(&c0),
+                now,
+                nc,
+                coq_bool(answer),
+                ocode,
+                asked_coq,
+                vc_obs(&c1)
+            ));
+        }
+        emit(
+            "CASE",
+            json!({"id": case, "kind": "handler", "policy": pol_json(&pol),
+                   "inputs": (0..n_in).map(|k| json!({"script_class": kinds[k].0, "wallet_key_index": kinds[k].2, "request_form": format!("{:?}", in_forms[k]),
+                        "true_value_sat": true_vals[k], "claimed_witness_utxo_value_sat": claimed[k].as_ref().map(|c| c.value.to_sat()),
+                        "previous_tx_in_request": psbt.inputs[k].non_witness_utxo.is_some(), "previous_output_index": prevs[k].1})).collect::<Vec<_>>(),
+                   "outputs": outs.iter().map(out_json).collect::<Vec<_>>(),
+                   "now": now, "approver_answers": answer, "request_bytes": bytes.len(),
+                   "observed": {"code(0 reply,2 error,3 panic,4 refused at decode,5 decode panic)": code, "asked_about": asked,
+                                "reply_valid_for_true_prevouts": usable, "fee_control_before": vc_json(&c0), "fee_control_after": vc_json(&c1)},
+                   "reference": {"weight_lower_bound": w.to_string(), "true_sum_inputs": true_vals.iter().map(|v| *v as u128).sum::<u128>().to_string(),
+                                 "sum_beneficial": outs.iter().map(counted).sum::<u128>().to_string(), "unclassified_outputs": unknown_ref,
+                                 "request_disagrees_with_previous_tx": disagrees, "legacy_claim_without_previous_tx": unverifiable},
+                   "code": code, "decode_disagreement": decode_disagrees, "monitor_violation": monitor, "coq": coq}),
+        );
+    }
+    emit(
+        "STATS",
+        json!({"kind": "handler", "profile": profile_name(), "codes(0 reply,2 error,3 panic,4 refused at decode,5 decode panic)": codes,
+               "request_forms": forms, "replies_valid_on_chain": signed_usable, "replies_not_valid_on_chain": signed_unusable,
+               "inputs_signed_by_script_class": kinds_signed, "decode_disagreements": decode_disagreements, "monitor_failures": monitor_failures}),
+    );
+}
+
 fn main() {
     // expected panics of the code under test are caught; keep them to one line on stderr
     std::panic::set_hook(Box::new(|info| {
@@ -1587,6 +2099,7 @@ fn main() {
         "node" => node_domain(&args),
         "val" => val_domain(&args),
         "witness" => witness_domain(&args),
+        "handler" => handler_domain(&args),
         other => {
             eprintln!("unknown sub-domain {}", other);
             std::process::exit(2);
